@@ -2,6 +2,7 @@
 package rules
 
 import (
+	"go/types"
 	"sort"
 
 	"verif/tool/evid"
@@ -37,4 +38,9 @@ func IDs() []string {
 func init() {
 	register("C04", "proof", C04)
 	register("C05", "proof", C05)
+}
+
+func isStr(t interface{ Underlying() types.Type }) bool {
+	b, ok := t.Underlying().(*types.Basic)
+	return ok && b.Info()&types.IsString != 0
 }
